@@ -39,7 +39,7 @@ def validator_for(pkg, key):
 
 
 @st.composite
-def typed_values(draw, cfg_kw=None, per_spec=(6, 14), wild=False, omit_callers=frozenset()):
+def typed_values(draw, cfg_kw=None, per_spec=(6, 14), wild=False, omit_callers=frozenset(), subclass=False):
     kw = dict(RT_CFG)
     kw.update(cfg_kw or {})
     api = draw(gen.api_models(gen.Cfg(**kw)))
@@ -53,7 +53,7 @@ def typed_values(draw, cfg_kw=None, per_spec=(6, 14), wild=False, omit_callers=f
             if costs.texpr(t) >= values.Costs.INF:
                 continue
             v = draw(values.value_for(idx, costs, t, fuel=draw(st.integers(0, 3)), wild=wild,
-                                          omit_callers=omit_callers))
+                                          omit_callers=omit_callers, subclass=subclass))
             if not values.is_complete(v):
                 continue
             items.append((key, t, v))
